@@ -4,6 +4,23 @@ Obligations: what symbolic execution emits and the discharger decides.
 import z3
 
 
+def _has_quantifier(t, limit=20000):
+    todo = [t]
+    seen = set()
+    while todo:
+        x = todo.pop()
+        if z3.is_quantifier(x):
+            return True
+        i = x.get_id()
+        if i in seen:
+            continue
+        seen.add(i)
+        if len(seen) > limit:
+            return True
+        todo.extend(x.children())
+    return False
+
+
 def skolemize(goal, assumptions):
     """goal of the shape (forall x. body) [possibly under an implication / conjunction]: replace the bound
     variable by a fresh constant and instantiate every single-variable universally quantified assumption of the
@@ -57,11 +74,46 @@ class Ob:
         #                             'sat'   : assumptions /\ goal must be satisfiable (COVER)
         #                             'refuted': must NOT be valid (CANARY)
         self.meta = meta or {}
+        self.frozen = None
         self.status = None          # proved | refuted | unknown | ungenerated | scan-ok | scan-fail
         self.backend = None
         self.time = 0.0
         self.model = None
         self.detail = None
+
+    def smt2_qf(self):
+        "sat-type obligations: the quantifier-free part only (vacuity guard of last resort)"
+        s = z3.Solver()
+        for a in self.assumptions:
+            if not z3.is_quantifier(a) and '(forall' not in a.sexpr()[:0] :
+                try:
+                    if not _has_quantifier(a):
+                        s.add(a)
+                except Exception:
+                    pass
+        if self.must == 'sat':
+            s.add(self.goal)
+        return s.to_smt2()
+
+    def smt2_relaxed(self):
+        "only the linear, quantifier-free assumptions (fewer premises: 'unsat' still proves the obligation)"
+        from .symex import is_cheap
+        from .l2 import _simplified
+        s = z3.Solver()
+        n = 0
+        for a in self.assumptions:
+            if is_cheap(a):
+                s.add(a)
+            else:
+                b = _simplified(a)
+                if b is not None:
+                    s.add(b)
+                else:
+                    n += 1
+        if n == 0:
+            return None
+        s.add(z3.Not(self.goal))
+        return s.to_smt2()
 
     def smt2(self, hints=False):
         s = z3.Solver()
@@ -89,6 +141,29 @@ class Ob:
         for extra in self.meta.get('extra_assumptions', []):
             s.add(extra)
         return s.to_smt2()
+
+    def freeze(self):
+        "serialise everything the discharger needs (so the obligation can be cached / pickled)"
+        if self.assumptions is None or getattr(self, 'frozen', None) is not None:
+            return
+        fz = {'main': self.smt2()}
+        if self.must == 'valid':
+            fz['relaxed'] = self.smt2_relaxed()
+        else:
+            fz['hinted'] = self.smt2(hints=True)
+            fz['qf'] = self.smt2_qf()
+        self.frozen = fz
+
+    def __getstate__(self):
+        self.freeze()
+        d = dict(self.__dict__)
+        d['assumptions'] = [] if self.assumptions is not None else None
+        d['goal'] = None
+        m = dict(d.get('meta') or {})
+        m.pop('observe', None)
+        m.pop('extra_assumptions', None)
+        d['meta'] = m
+        return d
 
     def summary(self):
         return {'id': self.id, 'kind': self.kind, 'function': self.func, 'desc': self.desc,
